@@ -650,13 +650,23 @@ func (e *c19Env) l2(out *zzverif.Out, c *c19Case, costs []int, r *c19Real, line 
 	}
 	any := L - 1 // longest suffix that fits, without the "all shorter ones" condition
 	for i := 0; i < L-1; i++ {
-		if fitsAt(i) {
+		if costs[i] >= 0 && fitsAt(i) { // a negative entry is a failed measurement (never visited by this call), not a cost
 			any = i
 			break
 		}
 	}
 	if any != n {
+		// a longer run than the retained one fits: the walk stopped at the first over-budget candidate (what the
+		// code guarantees for every cost, `cut_is_spec`); the statement's "longest run that fits" reading fails here
 		out.Count("spec_nonmonotone_cost")
+		switch {
+		case c.style >= 0 && c.style < len(c19TemplateSrc):
+			out.Count(fmt.Sprintf("spec_nonmonotone_cost_harness_style_%d_tokenizer_%d", c.style, c.mode))
+		case c.style >= len(c19TemplateSrc):
+			out.Count("spec_nonmonotone_cost_shipped_template_" + c19RealTemplates[c.style-len(c19TemplateSrc)])
+		default:
+			out.Count("spec_nonmonotone_cost_generated_template")
+		}
 	}
 	out.Count(fmt.Sprintf("kept_%s", map[bool]string{true: "all", false: "some"}[n == 0]))
 	if n == L-1 && L > 1 {
